@@ -711,7 +711,7 @@ def collect(ctx, n, _unused=0):
 
 def run(ctx):
     status = coqbuild.prove("C07", THEOREMS)
-    agg, items, corr, cases = collect(ctx, 400 if ctx.quick else 6000)
+    agg, items, corr, cases = collect(ctx, 400 if ctx.quick else 18000)
     for cls, det, c in items:
         ctx.item(cls, {"stage": "cdd.compound.doctrans.doctrans on generated modules", "clause": cls,
                        "input": {k: c[k] for k in ("fmt", "type_annotations", "no_word_wrap", "src")} if c else None, "detail": det})
